@@ -46,6 +46,7 @@ func c10Profile(noEviction bool) func(c *sim.RunCtx) {
 			// leak to an unrelated name
 			cfg.WConfig = true
 			cfg.ExistCache = t.Chance(1, 2)
+			cfg.Demux = t.Chance(1, 3)
 			if cfg.BlockCount() == 0 {
 				cfg.Spare = 1
 			}
